@@ -1,5 +1,5 @@
 (* C12 property theorems. Nothing but statements closed by [exact]. *)
-From OIDC Require Import Lib Base64 Base64_proofs Cipher Cipher_proofs C12_spec C12_Codec_proofs C12_proofs.
+From OIDC Require Import Lib Base64 Base64_proofs Cipher Cipher_proofs C12_spec C12_Codec_proofs C12_proofs C12_Ext_proofs C12_Ext_spec_proofs.
 
 (* ---------------- claims codec ---------------- *)
 
@@ -106,6 +106,129 @@ Print Assumptions C12_decode_any_document.
 Theorem C12_codec_spec_holds : forall i, is_codec i = true -> spec i (model i) = true.
 Proof. exact spec_model_codec. Qed.
 Print Assumptions C12_codec_spec_holds.
+
+(* ---------------- round 11: constructors, getters, non-JSON codecs (C12_Ext.v) ---------------- *)
+
+(* NewLogoutTokenClaims, all arguments, any clock: Unmarshal (Marshal v) is the
+   value the constructor built (an empty audience as the nil audience) and the
+   custom map is the written object *)
+Theorem C12_new_logout_roundtrip : forall rfc lt lp iss sub aud es en jti sid skew now,
+  let v := new_logout iss sub aud es en jti sid skew now in
+  decode rfc lt lp (schema_of TLogout) (JObj (encode_T TLogout v [])) =
+  Ok (new_logout iss sub (nil_if_empty aud) es en jti sid skew now, encode_T TLogout v []).
+Proof. exact new_logout_roundtrip. Qed.
+Print Assumptions C12_new_logout_roundtrip.
+
+(* IDTokenClaims.GetUserInfo: every UserInfo member is the ID-token member of its name ... *)
+Theorem C12_getuserinfo_members : forall vals claims f d,
+  In f (schema_of TUserInfo) ->
+  get_val (fname f) (schema_of TUserInfo) (fst (get_userinfo vals claims)) d =
+  get_val (fname f) (schema_of TID) vals (zero_of (fkind f)).
+Proof. exact getuserinfo_members. Qed.
+Print Assumptions C12_getuserinfo_members.
+
+(* ... and the UserInfo document says under every UserInfo member name what the
+   ID token says under it (a set registered member wins over a custom claim of
+   that name in both; an unset one is filled from the custom claims in both) *)
+Theorem C12_getuserinfo_doc_agrees : forall vals claims f,
+  List.length vals = List.length (schema_of TID) -> In f (schema_of TUserInfo) ->
+  lookup (fname f) (encode_T TUserInfo (fst (get_userinfo vals claims)) (snd (get_userinfo vals claims))) =
+  lookup (fname f) (encode_T TID vals claims).
+Proof. exact getuserinfo_doc_agrees. Qed.
+Print Assumptions C12_getuserinfo_doc_agrees.
+
+(* SpaceDelimitedArray.Value then .Scan (string or []byte column, any previous
+   content of the destination): elements without spaces come back unchanged *)
+Theorem C12_sda_value_scan : forall init l,
+  forallb space_free l = true -> l <> [] -> l <> [""] ->
+  sda_scan init (DStr (sda_value (Some l))) = (true, Some l) /\
+  sda_scan init (DBytes (sda_value (Some l))) = (true, Some l).
+Proof. exact sda_value_scan. Qed.
+Print Assumptions C12_sda_value_scan.
+
+(* Scan of every dynamic value: NULL -> nil, a text -> elements that join to the
+   text again (the empty text -> no element), anything else -> error and the
+   destination untouched *)
+Theorem C12_sda_scan_total : forall init d,
+  match d with
+  | DNil => sda_scan init d = (true, None)
+  | DStr s | DBytes s => exists l, sda_scan init d = (true, Some l) /\ (s = "" -> l = []) /\ (s <> "" -> join_sp l = s)
+  | _ => sda_scan init d = (false, init)
+  end.
+Proof. exact sda_scan_total. Qed.
+Print Assumptions C12_sda_scan_total.
+
+(* FromTime (AsTime ts) = ts except for the one number that denotes Go's zero
+   time; AsTime (FromTime t) = t cut to the second except for the zero time and
+   the Unix epoch (Time 0 = unset) *)
+Theorem C12_time_as_from : forall ts,
+  from_time (fst (as_time ts)) (snd (as_time ts)) = if (ts =? zero_sec)%Z then 0%Z else ts.
+Proof. exact time_as_from. Qed.
+Print Assumptions C12_time_as_from.
+
+Theorem C12_time_from_as : forall s n,
+  as_time (from_time s n) =
+  if ((s =? zero_sec)%Z && (n =? 0)%Z) || (s =? 0)%Z then (zero_sec, 0%Z) else (s, 0%Z).
+Proof. exact time_from_as. Qed.
+Print Assumptions C12_time_from_as.
+
+(* ApplicationType / AccessTokenType: String then <Type>String gives the value
+   back for every declared value; the text of an out-of-range number is neither
+   a declared name nor accepted; an accepted text is, but for letter case, the
+   name of the (declared) value returned; what every Unmarshal* / Scan leaves in
+   the destination *)
+Theorem C12_enum_roundtrip : forall e n,
+  enum_in_range e n = true -> enum_parse e (enum_string e n) = Some n.
+Proof. exact enum_roundtrip. Qed.
+Print Assumptions C12_enum_roundtrip.
+
+Theorem C12_enum_out_of_range : forall e n,
+  enum_in_range e n = false ->
+  enum_parse e (enum_string e n) = None /\ string_in (enum_string e n) (enum_names e) = false.
+Proof. exact enum_out_of_range. Qed.
+Print Assumptions C12_enum_out_of_range.
+
+Theorem C12_enum_parse_sound : forall e s v,
+  enum_parse e s = Some v ->
+  enum_in_range e v = true /\ lower_norm s = lower_norm (enum_string e v).
+Proof. exact enum_parse_sound. Qed.
+Print Assumptions C12_enum_parse_sound.
+
+Theorem C12_enum_unmarshal_outcome : forall e init src,
+  let r := enum_unmarshal e init src in
+  if fst r then src = SScan DNil /\ snd r = init \/ enum_in_range e (snd r) = true
+  else snd r = init \/ snd r = 0%Z.
+Proof. exact enum_unmarshal_outcome. Qed.
+Print Assumptions C12_enum_unmarshal_outcome.
+
+(* ConcatenateJSON on two compactly written objects = the object text whose
+   members are the first one's followed by the second one's; a decoder that keeps
+   the last of equal keys then reads the second object over the first; texts
+   that do not end with } / start with { are rejected and left alone *)
+Theorem C12_concat_members : forall ms1 ms2,
+  forallb nonempty ms1 = true -> forallb nonempty ms2 = true ->
+  fst (concat_json (render ms1) (render ms2)) = Some (render (ms1 ++ ms2)).
+Proof. exact concat_members. Qed.
+Print Assumptions C12_concat_members.
+
+Theorem C12_concat_second_wins : forall x y k,
+  NoDup (keys x) -> NoDup (keys y) ->
+  lookup k (members_obj (x ++ y)) =
+  match lookup k y with Some v => Some v | None => lookup k x end.
+Proof. exact concat_second_wins. Qed.
+Print Assumptions C12_concat_second_wins.
+
+Theorem C12_concat_rejects : forall a b,
+  ends_with "}"%char a = false \/ starts_with "{"%char b = false ->
+  concat_json a b = (None, a).
+Proof. exact concat_rejects. Qed.
+Print Assumptions C12_concat_rejects.
+
+(* the predicate evaluated on the implementation holds on the extension model
+   for every input (it is part of C12_codec_spec_holds through IExt) *)
+Theorem C12_ext_spec_holds : forall x, xspec x (xmodel x) = true.
+Proof. exact spec_model_ext. Qed.
+Print Assumptions C12_ext_spec_holds.
 
 (* ---------------- sealing ---------------- *)
 
